@@ -500,7 +500,9 @@ CLAIM = {
             "by the initial equity sample), be read-only / a pure memo, or carry a named exemption. Unknown cells and failing entries are "
             "violations. Candle arguments must reach the simulator only as deep copies and no argument may be stored into. No set is "
             "turned into an ordered sequence in reachable code (iteration order of strings follows the per-process hash seed); the final "
-            "cleanup rebuilds the store before it restores the configuration. "
+            "cleanup rebuilds the store before it restores the configuration. Model fields must not have mutable literal defaults, the "
+            "logger reset must detach the handlers it attached to the process-wide logging registry, and the hyperparameters argument must "
+            "reach a strategy only as a copy. "
             "Not decided: equality of results (needs execution).",
     "note": "Trusted: name-based call graph (over-approximate), the exemption table with its reasons.",
 }
